@@ -11,7 +11,8 @@ BOOLS = ["true", "TRUE", "True", "tRuE", "TRue", "1", "t", "T", "yes", "YES", "Y
          "false", "FALSE", "False", "0", "f", "F", "no", "off", " true ", "\ttrue\n", " on ", "yes ", "  YES", "2", "truee",
          "y", "enabled", "tr ue", " 1 ", " T", "-1", "01"]
 LISTS = ["testdata", "a,b", " a , b ", "a,,b", ",", " , ", "a,", ",a", "imm01,CTOR", "Imm01 , tonl", "vendor/x,gen-files,a.b",
-         "ALL", "all", " ", "a b", "a\tb,c", "x", "IMM01", "imm", "a,b,c,d,e,f", "\tgen\t,\nmytestdata\n", "A,a", ",,,"]
+         "ALL", "all", " ", "a b", "a\tb,c", "x", "IMM01", "imm", "a,b,c,d,e,f", "\tgen\t,\nmytestdata\n", "A,a", ",,,",
+         "gen,generated", "generated,gen", "a,ab,abc", "IMM,IMM01", "imm01,IMM01,imm", "all,ALL,IMM", "x,ALL , y"]
 ENV = {"scan": "GOGREEMENT_SCAN_TESTS", "paths": "GOGREEMENT_EXCLUDE_PATHS", "checks": "GOGREEMENT_EXCLUDE_CHECKS"}
 FLAG = {"scan": "scan-tests", "paths": "exclude-paths", "checks": "exclude-checks"}
 
@@ -242,7 +243,7 @@ def run(ctx):
     probes = []
     bsample = ["true", "TRUE", " yes ", "On", "1", "t", "false", "0", "off", "", "2", "tRuE", " T "]
     lsample_p = ["gen", "mytestdata,gen", "", "nomatch", " gen , ", "u_test", "testdata", "gen,,", "GEN"]
-    lsample_c = ["IMM01", "imm", "ALL", "all", " ctor02 , TONL ", "", "IM", "IMM01,IMM02,IMM03,IMM04,CTOR,TONL,PKGO,IMPL", "X9,,", "pkgo03,impl01"]
+    lsample_c = ["IMM01", "imm", "ALL", "all", " ctor02 , TONL ", "", "IM", "IMM01,IMM02,IMM03,IMM04,CTOR,TONL,PKGO,IMPL", "X9,,", "pkgo03,impl01", " All ", "x9, all ,y", "IMM,IMM01", "imm01,IMM01"]
     for v in bsample:
         probes.append(([], {ENV["scan"]: v}))
     for v in ["true", "false", "1", "0", "T", "F"]:
@@ -250,6 +251,8 @@ def run(ctx):
     probes.append((["--config.scan-tests"], {}))
     for v in lsample_p:
         probes.append(([], {ENV["paths"]: v}))
+        probes.append((["--config.scan-tests=true"], {ENV["paths"]: v}))        # the options together: test files are subject to exclude-paths too
+        probes.append((["--config.exclude-paths=" + v], {ENV["scan"]: "on"}))
         probes.append((["--config.exclude-paths=" + v], {ENV["paths"]: rng.choice(lsample_p)}))
     for v in lsample_c:
         probes.append(([], {ENV["checks"]: v}))
